@@ -96,6 +96,37 @@ def check_scene(case):
     return None
 
 
+def check_pooled(case):
+    """scene-level evaluation (nested per-frame lists, as get_scene_result builds them): AP / APH within [0, 1], APH <= AP, and the pooled structure is left as it was"""
+    from perception_eval.evaluation.matching.objects_filter import divide_objects, divide_objects_to_num
+    from perception_eval.evaluation.metrics.metrics import MetricsScore
+    n = len(case["targets"])
+    et, cof, pfc, msc = frames.configs("detection", case["targets"], case["crit"], case["thr"], metrics=dict(center_distance_thresholds=[case["thr"], [t * 2 for t in case["thr"]]]))
+    pooled = {lab: [[]] for lab in cof.target_labels}
+    num_gt = {lab: 0 for lab in cof.target_labels}
+    for f in case["frames"]:
+        fr, eo, go, res = frames.frame_result(f["est"], f["gt"], ego=None, task="detection", targets=case["targets"], crit=case["crit"], pass_thr=case["thr"],
+                                              policy=case.get("policy", "DEFAULT"), metrics=dict(center_distance_thresholds=[case["thr"]]))
+        d = divide_objects(fr.object_results, cof.target_labels)
+        g = divide_objects_to_num(fr.frame_ground_truth.objects, cof.target_labels)
+        for lab in cof.target_labels:
+            pooled[lab].append(d[lab])
+            num_gt[lab] += g[lab]
+    before = {lab: [list(x) for x in v] for lab, v in pooled.items()}
+    ms = MetricsScore(config=msc, used_frame=list(range(len(case["frames"]))))
+    ms.evaluate_detection(pooled, num_gt)
+    for lab in before:
+        if len(pooled[lab]) != len(before[lab]) or any(len(x) != len(y) or any(p is not q for p, q in zip(x, y)) for x, y in zip(pooled[lab], before[lab])):
+            return "evaluating the scene changed the pooled per-frame results it was given"
+    for m in ms.maps:
+        for a, h in zip(m.aps, m.aphs):
+            if a.ap != float("inf") and not (-1e-12 <= a.ap <= 1 + 1e-9):
+                return f"scene AP {a.ap} ({m.matching_mode}) outside [0, 1]"
+            if a.ap != float("inf") and h.ap != float("inf") and h.ap > a.ap + 1e-9:
+                return f"scene APH {h.ap} exceeds AP {a.ap} ({m.matching_mode})"
+    return None
+
+
 def gen_scene(rnd):
     targets = ["car", "pedestrian", "bicycle"]
     pts = [-6.0, -3.0, 0.0, 2.0, 5.0]
@@ -136,12 +167,24 @@ def search(item, seed):
             why = f"evaluation raised {type(ex).__name__}: {ex}"
         if why:
             return dict(function="scene", input=case, observed=why)
+    for _ in range(budget(30)):
+        base = gen_scene(rnd)
+        case = dict(base, frames=[dict(est=base["est"], gt=base["gt"])] + [(lambda b: dict(est=b["est"], gt=b["gt"]))(gen_scene(rnd)) for _ in range(rnd.randint(1, 2))])
+        try:
+            why = check_pooled(case)
+        except Exception as ex:
+            why = f"evaluation raised {type(ex).__name__}: {ex}"
+        if why:
+            return dict(function="pooled", input=case, observed=why)
     return None
 
 
 def replay(payload):
     i = payload["input"]
-    why = check_core(i["weights"], i["G"]) if payload["function"] == "Ap(core)" else check_scene(i)
+    if payload["function"] == "pooled":
+        why = check_pooled(i)
+    else:
+        why = check_core(i["weights"], i["G"]) if payload["function"] == "Ap(core)" else check_scene(i)
     return (why is None, why or "ok")
 
 
